@@ -232,6 +232,11 @@ func (ex *Exec) invoke(st *State, i *ssa.Call) []*State {
 		if ex.handlerHook != nil {
 			ex.handlerHook(st, ev, args)
 		}
+		if ex.mode == "wellbehaved" && ex.simVariant != "" {
+			ex.wellBehavedHandler(st, ev, args, pp, herr)
+		} else {
+			st.ghost["rspos"] = I64(-1)
+		}
 		st.regs[i] = TupleV{pp, herr}
 		return []*State{st}
 	case "Error":
@@ -490,6 +495,8 @@ func (ex *Exec) clauseActive(c *Clause) bool {
 		return true
 	case "sim":
 		return ex.simVariant != ""
+	case "simwb":
+		return ex.simVariant != "" && ex.mode == "wellbehaved"
 	default:
 		return c.Mode == ex.mode
 	}
@@ -517,4 +524,48 @@ func flattenArgs(ex *Exec, st *State, args []Value, f *ssa.Function, fc *FuncCon
 		}
 	}
 	return out, true
+}
+
+// wellBehavedHandler: the handler contract of C07. A handler that returns a nil error returns
+// either 0 or the exact end of the value it was given; "exact end" is stated on the spec run:
+// at VE = (start of the value) + pp the run is in the after-value state of the same context with
+// the same depth and the same enclosing frames, VE lies inside the input, and the byte before VE
+// closes the value (L-closer: a string ends with '"', an array with ']', an object with '}').
+// The ghost resync position records that the machine now re-reads that closing byte.
+func (ex *Exec) wellBehavedHandler(st *State, ev *Event, args []Value, pp, herr *Term) {
+	dsl, ok := args[len(args)-1].(*SliceV)
+	if !ok || !dsl.Reg.Input {
+		return
+	}
+	arr := st.loadArr(ex, dsl.Reg)
+	if arr.Op != "var" {
+		return
+	}
+	tab := specTab()
+	p0 := dsl.Off
+	ve := Add(p0, pp)
+	b0 := Select(arr, p0)
+	q0 := ex.Rq(arr, p0)
+	d0 := ex.Rdepth(arr, p0)
+	isStr := Eq(b0, BVI(8, '"'))
+	isArr := Eq(b0, BVI(8, '['))
+	isObj := Eq(b0, BVI(8, '{'))
+	closer := Ite(isStr, BVI(8, '"'), Ite(isArr, BVI(8, ']'), BVI(8, '}')))
+	exact := And(Eq(herr, NilErr), Not(Eq(pp, I64(0))))
+	facts := And(
+		Slt(I64(0), pp), Sle(pp, dsl.Len),
+		Or(isStr, isArr, isObj),
+		Eq(ex.Rdepth(arr, ve), d0),
+		Eq(ex.Rq(arr, ve), afterOfCtx(tab, App("spec.ctxof", BV(8), q0))),
+		Eq(Select(arr, Sub(ve, I64(1))), closer),
+	)
+	// numbers and literals: the machines ignore the offset; nothing is assumed about it there
+	st.assume(Implies(And(exact, Or(isStr, isArr, isObj)), facts))
+	// a well-behaved handler given a number/literal returns 0 or its end; the code does not use it
+	bv := Fresh("q.f", BV(64))
+	st.qfacts = append(st.qfacts, &QFact{Guard: And(exact, Or(isStr, isArr, isObj)), BV: bv, Lo: I64(0), Hi: d0,
+		Body: Eq(Select(ex.Rframe(arr, ve), bv), Select(ex.Rframe(arr, p0), bv)), Name: "handler-frames", At: len(st.pc), Seeds: []*Term{Sub(d0, I64(1)), Sub(d0, I64(2))}})
+	st.ghost["rspos"] = Ite(And(exact, Or(isStr, isArr, isObj)), Sub(ve, I64(1)), I64(-1))
+	st.ghost["rsb"] = closer
+	ev.Info["memberpos"] = p0
 }
